@@ -990,3 +990,26 @@ func (p *pkg) restNewDemuxer() string {
 	b.WriteString("End NewDemuxer.\n\n")
 	return b.String()
 }
+
+// ---------- Gen/RestDesc.v: the two descriptor parsers psigen.go leaves out ----------
+
+const restDescHeader = `(* Generated from the CURRENT source of /repo/descriptor.go by go/gen (restgen.go, with the statement translator of
+   demuxgen.go) on every run. Do not edit.
+   newDescriptorISO639LanguageAndAudioType (run-time slice bounds: Panicked on an empty descriptor body) and
+   newDescriptorExtension (a shadowed variable; &b of a local slice that is assigned once: the pointer's target is the
+   slice) in the outcome monad of Gen/DemuxGen.v. The *BytesIterator parameter is returned with the results;
+   newDescriptorExtensionSupplementaryAudio is a Section variable typed from its Go declaration.
+   Proofs/RestGenDesc2.v relates new_descriptor_iso639 / new_descriptor_extension of Model/Desc.v to them. *)
+From Coq Require Import ZArith List Bool String.
+Require Import Base.Iter Gen.Consts Gen.Types Gen.Preds Gen.DemuxGen.
+Import ListNotations.
+Open Scope Z_scope.
+
+`
+
+func (p *pkg) emitRestDesc() string {
+	var b strings.Builder
+	b.WriteString(restDescHeader)
+	p.emitGSections(&b, []gsection{{name: "DescriptorLeftovers", entries: []string{"newDescriptorISO639LanguageAndAudioType", "newDescriptorExtension"}}})
+	return b.String()
+}
